@@ -44,9 +44,14 @@ import threading
 ENGINE_SLOTS = threading.BoundedSemaphore(NCPU)
 
 
-def engine_call(cmd):
+def engine_call(cmd, heavy=False):
+    env = ENGINE_ENV
+    if heavy:
+        # 2^26-element byte arrays: keep the Go heap of the engine well inside the machine
+        # (the collector otherwise lets it double before it runs; 65 GB was observed)
+        env = dict(ENGINE_ENV, GOMEMLIMIT="36GiB", GOGC="50")
     with ENGINE_SLOTS:
-        return subprocess.run(cmd, stdout=subprocess.PIPE, stderr=subprocess.STDOUT, text=True, env=ENGINE_ENV)
+        return subprocess.run(cmd, stdout=subprocess.PIPE, stderr=subprocess.STDOUT, text=True, env=env)
 
 
 CURRENT_PROP = None
@@ -83,8 +88,18 @@ def run_engine(run, tier, seed, workdir, idx):
         cmd += ["-solver", run["solver"]]
     for k, v in sorted(run.get("params", {}).items()):
         cmd += ["-param", "%s=%d" % (k, v)]
+    if run.get("heavy"):
+        # wait (bounded) until the machine has the memory this run needs; other checks may be running
+        for _ in range(90):
+            try:
+                avail = int([l for l in open("/proc/meminfo") if l.startswith("MemAvailable")][0].split()[1]) // (1 << 20)
+            except Exception:
+                break
+            if avail >= 40:
+                break
+            time.sleep(10)
     t0 = time.time()
-    r = engine_call(cmd)
+    r = engine_call(cmd, heavy=bool(run.get("heavy")))
     res = None
     if os.path.exists(out):
         try:
@@ -408,7 +423,14 @@ def main():
             other_props.add(v["id"])
             continue  # belongs to another property's check (same harness, other assertion group)
         key = (run["pkg"], run["fn"], v["id"], v.get("known", ""))
-        if key not in uniq:
+
+        def replayability(v):
+            # 0: no injected failure; 1: failures strace can inject; 2: a failure with no system call behind it
+            inj = [e.split(" ", 1)[0] for e in v.get("os_trace") or [] if e.endswith("injected FAILED")]
+            if not inj:
+                return 0
+            return 1 if all(k in ("fsync", "fsync-dir", "pwrite", "fallocate", "unlink", "rename") for k in inj) else 2
+        if key not in uniq or replayability(v) < replayability(uniq[key][1]):
             uniq[key] = (run, v)
     for (pkg, fn, vid, ktag), (run, v) in uniq.items():
         tags = [t for t in ktag.split("+") if t]
